@@ -736,6 +736,61 @@ Definition step_pc (s : string) : option Z :=
 Definition midi_pitch (step : string) (alter octave : Z) : option Z :=
   match step_pc step with Some b => Some ((octave + 1) * 12 + b + alter) | None => None end.
 
+(* ------------------------------------------------------------------ to_v1 (upgrade of pre-1.0 note lines) *)
+
+(* a tick value: int ticks stay; the float ticks of versions < 0.3.0 become int(np.round(x)) *)
+Definition tick_to_v1 (v : value) : option value :=
+  match v with
+  | VInt z => Some (VInt z)
+  | VQ neg q => Some (VInt (if neg then - round_half_even q else round_half_even q))
+  | _ => None
+  end.
+Definition alter_of (v : value) : option Z :=
+  match v with VInt a => Some a | VNone => Some 0 | _ => None end.
+
+(* MatchNote.from_instance on the field values (Id, NoteName, Modifier, Octave, Onset, Offset,
+   [AdjOffset,] Velocity) -> (Id, MidiPitch, Onset, Offset, Velocity, Channel, Track) *)
+Definition note_to_v1 (vs : list value) : option (list value) :=
+  match vs with
+  | [VStr id; VStr step; alt; VInt oct; on; off; vel]
+  | [VStr id; VStr step; alt; VInt oct; on; off; _; vel] =>
+      match alter_of alt, tick_to_v1 on, tick_to_v1 off, midi_pitch step (match alter_of alt with Some a => a | None => 0 end) oct with
+      | Some _, Some on', Some off', Some p => Some [VStr id; VInt p; on'; off'; vel; VInt 1; VInt 0]
+      | _, _, _, _ => None
+      end
+  | _ => None
+  end.
+
+Inductive v0kind := KSnoteNote | KSnoteOnly | KNoteOnly | KTrill | KPedal.
+Definition snote_len : nat := 11.
+
+(* to_v1 on the flat field values of a pre-1.0 line, giving the flat field values of the 1.0.0 line
+   of the same kind: the score note and pedal values are carried over unchanged, the performed note
+   is converted, a trill becomes an ornament of type [trill] with the same anchor *)
+Definition line_to_v1 (k : v0kind) (vs : list value) : option (list value) :=
+  match k with
+  | KSnoteNote =>
+      match note_to_v1 (skipn snote_len vs) with
+      | Some no => Some (firstn snote_len vs ++ no)%list
+      | None => None
+      end
+  | KSnoteOnly | KPedal => Some vs
+  | KNoteOnly => note_to_v1 vs
+  | KTrill =>
+      match vs with
+      | anchor :: no => match note_to_v1 no with
+                        | Some no' => Some (anchor :: VList ["trill"] :: no')
+                        | None => None
+                        end
+      | [] => None
+      end
+  end.
+
+Definition check_to_v1 (c : v0kind * list value * list value) : bool :=
+  let '(k, vs, out) := c in
+  match line_to_v1 k vs with Some o => list_eqb value_eqb o out | None => false end.
+
+
 (* the near-tie flag for bound_pair: the exact model and float64 may then disagree *)
 Definition bound_risky (n d : Z) : bool :=
   if (frac_bound <? n) || (frac_bound <? d) then
